@@ -20,18 +20,18 @@ Definition src_limit (am : atmost) (len : Z) : Z :=
   match am with
   | AInf => 0
   | AInt k => gen_select_limit false k 1 len k
-  | AFrac k j => gen_select_limit true k (2 ^ j) len 0
+  | AFrac k j => gen_select_limit true k (2 ^ j) len ((k + 2 ^ j - 1) / 2 ^ j)   (* a float > 1.0 stays: ceil *)
   end.
 
 Lemma limit_bridge am len :
-  am_wf am -> limit am len = if am_inf am then None else Some (src_limit am len).
+  limit am len = if am_inf am then None else Some (src_limit am len).
 Proof.
-  destruct am as [|k|k j]; simpl; intros Hwf; [reflexivity| |].
+  destruct am as [|k|k j]; simpl; [reflexivity| |].
   - unfold gen_select_limit.
     match goal with |- context [if ?c then _ else _] => destruct c eqn:E end; [exfalso; lia|reflexivity].
-  - unfold gen_select_limit. destruct Hwf as [Hj Hk].
-    match goal with |- context [if ?c then _ else _] => destruct c eqn:E end; [|exfalso; lia].
-    f_equal.
+  - unfold gen_select_limit.
+    destruct (k <=? 2 ^ j) eqn:E1;
+      match goal with |- _ = Some (if ?c then _ else _) => destruct c eqn:E end; try reflexivity; exfalso; lia.
 Qed.
 
 (* ---------- the fast path ---------- *)
@@ -96,30 +96,29 @@ Definition gen_select_members (t : table) (p : option pred) (am : atmost) (ty : 
   else gen_select_loop (src_keep t p ty) (am_inf am) (src_limit am (zlen m)) gen_select_count0 m.
 
 Lemma select_bridge t p am ty m :
-  am_wf am -> select_members t p am ty m = gen_select_members t p am ty m.
+  select_members t p am ty m = gen_select_members t p am ty m.
 Proof.
-  intros Hwf. unfold select_members, gen_select_members. rewrite <- fast_bridge.
+  unfold select_members, gen_select_members. rewrite <- fast_bridge.
   destruct (is_fast p am ty); [reflexivity|].
-  rewrite loop_bridge, (limit_bridge am _ Hwf).
+  rewrite loop_bridge, (limit_bridge am).
   replace gen_select_count0 with 0 by (vm_compute; reflexivity).
   rewrite (gen_loop_ext (keep t p ty) (src_keep t p ty)) by (intros a; apply keep_bridge).
   destruct am; reflexivity.
 Qed.
 
 Lemma select_spec_of_source t p am ty m r :
-  am_wf am -> gen_select_members t p am ty m = Some r ->
+  gen_select_members t p am ty m = Some r ->
   r = take_lim (limit am (zlen m)) (filter (keepb t p ty) m).
-Proof. intros Hwf H. rewrite <- (select_bridge _ _ _ _ _ Hwf) in H. apply select_spec. exact H. Qed.
+Proof. intros H. rewrite <- select_bridge in H. apply select_spec. exact H. Qed.
 
 Lemma select_error_of_source t p am ty m :
-  am_wf am ->
   (gen_select_members t p am ty m = None <->
    gen_select_fast (is_none p) (is_none ty) (am_inf am) = false /\
    exists pre a post, m = pre ++ a :: post /\ src_keep t p ty a = None /\
      (forall b, In b pre -> src_keep t p ty b <> None) /\
      reached (limit am (zlen m)) (zlen (filter (keepb t p ty) pre)) = false).
 Proof.
-  intros Hwf. rewrite <- (select_bridge _ _ _ _ _ Hwf), <- fast_bridge, select_none_iff.
+  rewrite <- select_bridge, <- fast_bridge, select_none_iff.
   split; intros [Hf [pre [a [post [H1 [H2 [H3 H4]]]]]]]; (split; [exact Hf|]); exists pre, a, post;
     (split; [exact H1|]); (split; [|split; [|exact H4]]).
   - rewrite <- keep_bridge. exact H2.
@@ -163,12 +162,13 @@ Definition src_inplace (r : reorder) (inplace : bool) : bool :=
   | RSelect p am ty => if gen_select_fast (is_none p) (is_none ty) (am_inf am)
                        then gen_select_fast_inplace inplace else gen_select_inplace inplace
   | RSort _ _ => gen_sort_inplace inplace
+  | RSort2 _ _ _ => gen_sort_inplace inplace
   | RShuffle _ => gen_shuffle_inplace inplace
   end.
 
 Lemma inplace_bridge r b : src_inplace r b = b.
 Proof.
-  destruct r as [p am ty| |]; simpl; [destruct (gen_select_fast _ _ _)|..]; destruct b; reflexivity.
+  destruct r as [p am ty| | |]; simpl; [destruct (gen_select_fast _ _ _)|..]; destruct b; reflexivity.
 Qed.
 
 Lemma step_reorder_of_source st s r inplace d m :
